@@ -2,6 +2,7 @@ package sctp
 
 import (
 	"fmt"
+	"github.com/pion/sctp/internal/vsched"
 	"time"
 )
 
@@ -286,6 +287,15 @@ func propC15(j *Job) {
 			j.Explore(fmt.Sprintf("B/%s/reenter-%s", mode.Name, what), callbackReenterScenario(a, b, what), Budget{K: 0}, nil)
 		}
 	}
+	// one SACK for several streams, callbacks that write on the other streams
+	for mi, mode := range modes {
+		if mi > 1 && !j.Thorough() {
+			break
+		}
+		for _, n := range []int{2, 4} {
+			j.Explore(fmt.Sprintf("XS/%s/streams%d", mode.Name, n), crossStreamScenario(withBase(mode.A, 1191, 9, 4000), withBase(mode.B, 1191, 99, 4000), n), Budget{K: 0}, nil)
+		}
+	}
 	// a writer racing Stream.Close: whichever writes are refused, the figures end at zero
 	for mi, mode := range modes {
 		if mi > 0 && !j.Thorough() {
@@ -490,6 +500,108 @@ func callbackReenterScenario(a, b epCfg, what string) *Scenario {
 			(&wconn{w: m.W, id: 0}).Close()
 			(&wconn{w: m.W, id: 1}).Close()
 			m.WaitUntil("all-back", 3*time.Second, func() bool { return rd.Done && xt.Done })
+		},
+		Final: func(m *Sim, x *Exec) { generalVerdicts(m, x, false) },
+	}
+}
+
+// crossStreamScenario: one SACK acknowledges data of several streams; the low-threshold callback
+// of one stream looks at the others (amounts, association figure) and writes on them.  At the
+// start of every callback and at every quiescent point each stream's amount equals its accepted
+// and unacknowledged bytes, and each stream gets one callback per downward crossing of that
+// quantity - whatever is written from another stream's callback in between.
+func crossStreamScenario(a, b epCfg, nStreams int) *Scenario {
+	return &Scenario{
+		Name:    "cross-stream",
+		Horizon: 120 * time.Second,
+		Setup: func(m *Sim) {
+			m.W.delay = [2]time.Duration{20 * time.Millisecond, 20 * time.Millisecond}
+		},
+		Body: func(m *Sim) {
+			if !m.Connect(a, b) {
+				m.Failf("connect", "handshake failed: %v %v", m.Err[0], m.Err[1])
+				m.closeFailedTransports()
+				m.CloseBoth()
+				return
+			}
+			A := m.As[0]
+			const th = 600
+			type st struct {
+				s         *Stream
+				callbacks int
+				crossings int
+				armed     bool
+				wrote     bool
+			}
+			var ss []*st
+			var rds []*vsched.Thread
+			for i := 0; i < nStreams; i++ {
+				sid := uint16(i + 1)
+				sa, _ := A.OpenStream(sid, PayloadTypeWebRTCBinary)
+				sb, _ := m.As[1].OpenStream(sid, PayloadTypeWebRTCBinary)
+				m.streamsSeen = append(m.streamsSeen, sa, sb)
+				ss = append(ss, &st{s: sa})
+				rds = append(rds, m.Go(fmt.Sprintf("readB%d", sid), func() {
+					buf := make([]byte, 70000)
+					for {
+						if _, _, err := sb.ReadSCTP(buf); err != nil {
+							return
+						}
+					}
+				}))
+			}
+			// sample: the true amount of every stream, its crossings, and what BufferedAmount says
+			sample := func(where string) {
+				for _, x := range ss {
+					truth := unackedOf(A, x.s.streamIdentifier)
+					// (fields read directly: the quiescent hook runs on the scheduler, not on a thread)
+					if got := int(x.s.bufferedAmount); got != truth {
+						m.viol = append(m.viol, Violation{Oracle: "buffered.stream", Msg: fmt.Sprintf("%s: stream %d reports BufferedAmount=%d but %d of its bytes are pending or unacknowledged (association figure %d)", where, x.s.streamIdentifier, got, truth, A.pendingQueue.getNumBytes()+A.inflightQueue.getNumBytes())})
+					}
+					if truth > th {
+						x.armed = true
+					} else if x.armed {
+						x.armed = false
+						x.crossings++
+					}
+				}
+			}
+			for i, x := range ss {
+				i, x := i, x
+				x.s.SetBufferedAmountLowThreshold(th)
+				x.s.OnBufferedAmountLow(func() {
+					if held := m.S.HeldClasses(); len(held) > 0 {
+						m.Failf("callback.locks", "OnBufferedAmountLow invoked with internal locks held: %v", held)
+					}
+					x.callbacks++
+					sample(fmt.Sprintf("in the callback of stream %d", x.s.streamIdentifier))
+					// write on the next stream, once
+					y := ss[(i+1)%len(ss)]
+					if !x.wrote {
+						x.wrote = true
+						_, _ = y.s.WriteSCTP(payload(y.s.streamIdentifier, 50+i, 2000), PayloadTypeWebRTCBinary)
+						sample(fmt.Sprintf("after the write made in the callback of stream %d", x.s.streamIdentifier))
+					}
+				})
+			}
+			m.quiescentHooks = append(m.quiescentHooks, func() { sample("quiescent") })
+			m.W.onQuiescent = m.invariantsAll
+			// one burst: a chunk of every stream leaves before any acknowledgement comes back
+			for i, x := range ss {
+				_, _ = x.s.WriteSCTP(payload(x.s.streamIdentifier, i, 1000), PayloadTypeWebRTCBinary)
+			}
+			sample("after the burst")
+			m.WaitUntil("drained", 30*time.Second, func() bool { return drained(A) })
+			m.Sleep(2 * time.Second)
+			sample("at the end")
+			for _, x := range ss {
+				if x.callbacks != x.crossings {
+					m.Failf("callback.missing", "stream %d: its accepted and unacknowledged bytes crossed the threshold %d downwards %d times, the callback fired %d times (a write made from another stream's callback, while the same SACK was still being applied, hid a crossing)", x.s.streamIdentifier, th, x.crossings, x.callbacks)
+				}
+			}
+			m.Observe("streams=%d", nStreams)
+			m.CloseBoth()
+			m.Join(rds...)
 		},
 		Final: func(m *Sim, x *Exec) { generalVerdicts(m, x, false) },
 	}
